@@ -4,7 +4,7 @@
    record_range, the merge patterns) is compared with GoroutineManager.AssignRoutineNumber,
    GoroutineTaskManager.RecordRange and CalcMinimumRequired by the correspondence check, and the
    use of the patterns by the call sites is tied by end-to-end determinism runs of the binary. *)
-From Coq Require Import ZArith List Bool Permutation Lia.
+From Coq Require Import ZArith List Bool Permutation Lia Sorted.
 Require Import Csvq.Model.Par Csvq.Proofs.Par.
 Import ListNotations.
 
@@ -172,7 +172,27 @@ Theorem C12_group_members_eq_seq : forall (key : nat -> nat) len n k, 1 <= n ->
   group_members Nat.eqb key len n k = group_members_seq Nat.eqb key len k.
 Proof. exact (group_members_eq_seq Nat.eqb). Qed.
 
-(* ---- REPLACE: unmatched rows are appended in Go map iteration order (view.go:974-1006) -- F-C05-1 *)
+(* the repair proposed in hooks/fix_group_key_order.patch: after the goroutines are done, sort the
+   keys by the index of their first record.  Whatever the arrival order was, the result is then the
+   one-goroutine list (sort.Slice is trusted to return a sorted permutation). *)
+Theorem C12_group_keys_sorted_by_first_record : forall (key : nat -> nat) len n arrivals l, 1 <= n ->
+  interleaving (all_worker_keys Nat.eqb key len n) arrivals ->
+  Permutation l (group_keys_of Nat.eqb arrivals) ->
+  StronglySorted (fun x y => first_pos x (map key (seq 0 len)) < first_pos y (map key (seq 0 len))) l ->
+  l = group_keys_seq Nat.eqb key len.
+Proof. exact group_keys_sorted_eq_seq. Qed.
+Print Assumptions C12_group_keys_sorted_by_first_record.
+Example C12_group_keys_sorted_example :
+  let key := fun r => (r + 2) / 80 in
+  group_keys_seq Nat.eqb key 160 = [0; 1; 2] /\ first_pos 1 (map key (seq 0 160)) = 78 /\ first_pos 2 (map key (seq 0 160)) = 158.
+Proof. vm_compute. repeat split; reflexivity. Qed.
+
+(* ---- REPLACE (repaired in /repo by 0ce9e2a): unmatched rows are appended in the order given ------- *)
+(* view.go replace() now keeps the matched flags in a slice and ranges over it in index order *)
+Theorem C12_replace_order : forall replaced m, replace_inserts replaced (seq 0 m) = unmatched replaced m.
+Proof. intros. reflexivity. Qed.
+(* why the repair was needed (F-C05-1): ranging over a Go map visits the indices in an arbitrary
+   order, and the appended rows came in that order *)
 Definition map_order_independent : Prop :=
   forall replaced m o1 o2, Permutation (seq 0 m) o1 -> Permutation (seq 0 m) o2 ->
     replace_inserts replaced o1 = replace_inserts replaced o2.
